@@ -24,6 +24,7 @@ import SJ.Drv.LineCol
 import SJ.Drv.C19b
 import SJ.Drv.Readers
 import SJ.Drv.C19Seq
+import SJ.Drv.C10Raw
 /-!
 `sjdriver` — reads case lines `op args… => impl-observation` on stdin, runs the Lean model and the
 executable specification on each, prints
@@ -61,6 +62,7 @@ def allHandlers : List (String × Handler) :=
     C19b.handlers,
     Readers.handlers,
     C19Seq.handlers,
+    C10Raw.handlers,
   ]
 
 def findHandler (op : String) : Option Handler := (allHandlers.find? (·.1 == op)).map (·.2)
